@@ -24,6 +24,10 @@ var c28Programs = []string{
 	"if { false } then { out 1 } else { out 2 -> regexp m/2/ }",
 	"out ${ out sub }",
 	"v = %[1,2]; out @v",
+	"trypipe { true || out a || out b }",
+	"try { true || out a || out b; out c }",
+	"function vtp { runmode trypipe function; out 1 || out 2 || out 3 }; vtp",
+	"trypipe { false || out a -> regexp m/a/ || out b }",
 }
 
 func c28Scenario(a, b string) *sched.Scenario {
@@ -40,11 +44,12 @@ func c28Scenario(a, b string) *sched.Scenario {
 					continue
 				}
 				if q, ok := seen[fid]; ok && q != p {
-					viol = fmt.Sprintf("FID %d was assigned to two different processes (%s and %s)", fid, q.Name.String(), p.Name.String())
+					// (no method that takes a lock may be called from the monitor)
+					viol = fmt.Sprintf("FID %d was assigned to two different process objects (%p and %p)", fid, q, p)
 				}
 				seen[fid] = p
 				if p.Id != fid {
-					viol = fmt.Sprintf("process %s carries Id %d but is registered under FID %d", p.Name.String(), p.Id, fid)
+					viol = fmt.Sprintf("process %p carries Id %d but is registered under FID %d", p, p.Id, fid)
 				}
 			}
 		}
@@ -81,15 +86,12 @@ func c28Scenario(a, b string) *sched.Scenario {
 }
 
 func c28Scenarios(quick bool) []*sched.Scenario {
-	progs := c28Programs
-	if quick {
-		progs = progs[:8]
-	}
 	var out []*sched.Scenario
-	for i, a := range progs {
-		for j, b := range progs {
-			if quick && (i+j)%2 == 1 {
-				continue // quick tier: half of the ordered pairs (every program still appears in both roles)
+	for i, a := range c28Programs {
+		for j, b := range c28Programs {
+			// quick tier: every program against the simplest one and against a second copy of itself
+			if quick && j != 0 && j != i {
+				continue
 			}
 			out = append(out, c28Scenario(a, b))
 		}
